@@ -236,6 +236,30 @@ REMOVAL_SITES = {
 }
 
 
+def _removal_helpers(e: Engine):
+    """Private methods of Queue that are referenced from the removal
+    primitive `_remove` (or from such a helper) only: they are part of it,
+    the guards are checked where `_remove` is called."""
+    c = e.p.cls(QUEUE)
+    refs = {}
+    for mname, m in c.methods.items():
+        for x in walk_own(m.node):
+            if isinstance(x, ast.Attribute) and isinstance(
+                    x.value, ast.Name) and x.value.id == 'self' and \
+                    x.attr in c.methods and x.attr != mname:
+                refs.setdefault(x.attr, set()).add(mname)
+    out = {'_remove'}
+    changed = True
+    while changed:
+        changed = False
+        for mname in c.methods:
+            if mname not in out and mname.startswith('_') and \
+                    refs.get(mname) and refs[mname] <= out:
+                out.add(mname)
+                changed = True
+    return out
+
+
 def r12(e: Engine, rep: Report):
     rep.tables.add('c01.REMOVAL_SITES')
     p = e.p
@@ -261,6 +285,8 @@ def r12(e: Engine, rep: Report):
             continue
         rep.functions.add(f.qname)
         row = REMOVAL_SITES.get(f.qname)
+        if row is None and f.name in _removal_helpers(e):
+            row = ('remove', [])      # part of the removal primitive
         if row is None:
             for n in sites:
                 rep.bad('R1.2', f.qname, 'removal site ' + ast.unparse(
